@@ -212,6 +212,8 @@ fn main() {
                 cfgs.push(Cfg { prefix_chunks: 1022, prefix_stale: true, vsends: [1, 1], drops: 0, dups: 0, advances: 1, ..base.clone() });
                 cfgs.push(Cfg { prefix_chunks: 511, prefix_stale: true, vsends: [1, 0], drops: 0, dups: 0, advances: 0, ..base.clone() });
                 cfgs.push(Cfg { prefix_chunks: 512, prefix_stale: true, vsends: [1, 0], drops: 0, dups: 0, advances: 0, ..base.clone() });
+                // the environment refuses one datagram (the call that tried to send it gets the error)
+                cfgs.push(Cfg { faults: 1, vsends: [1, 1], drops: 0, dups: 1, advances: 2, ..base.clone() });
             }
             Tier::Thorough => {
                 cfgs.push(Cfg { vsends: [3, 0], drops: 1, dups: 1, ..base.clone() });
@@ -222,6 +224,7 @@ fn main() {
                 cfgs.push(Cfg { vsends: [2, 0], drops: 1, dups: 1, advances: 3, steps: vec![250_000], ..base.clone() });
                 cfgs.push(Cfg { prefix_chunks: 1021, prefix_stale: true, vsends: [2, 1], drops: 1, dups: 1, advances: 1, ..base.clone() });
                 cfgs.push(Cfg { prefix_chunks: 1022, prefix_stale: true, vsends: [1, 1], drops: 1, dups: 1, advances: 2, ..base.clone() });
+                cfgs.push(Cfg { faults: 2, vsends: [1, 1], nsends: [1, 0], drops: 1, dups: 1, advances: 2, ..base.clone() });
             }
         }
     }
